@@ -17,10 +17,30 @@ Proof.
   - destruct r; try reflexivity. destruct ok; [discriminate|reflexivity].
   - destruct r as [b|b sl|b sl ix]; try reflexivity.
     destruct (slot_ok && (b_slice s =? sl) && (b_index s =? ix)) eqn:Hhd; cbn [negb orb] in *; [|reflexivity].
+    destruct (shred_tag_ok s) eqn:Ht; cbn [negb orb] in *; [|reflexivity].
     destruct (Bool.eqb (b_last s) (is_last_slice rp b sl)) eqn:Hl; cbn [negb orb andb] in *; [|reflexivity].
     destruct (root_lookup (b, sl) (rp_roots rp)) as [root|]; [|discriminate].
     destruct (b_root s =? root); cbn [negb orb] in *; [|reflexivity].
     destruct sig_ok; [discriminate|reflexivity].
+Qed.
+
+(* a shred response whose data / coding type contradicts its shred index - whatever else is right about it,
+   e.g. the leader's validly signed shred with the unsigned type flipped in transit - is such a rejected
+   response: the request stays outstanding, nothing reaches the blockstore *)
+Theorem tag_flipped_response_is_rejected : forall rp r slot_ok s sig_ok,
+  shred_tag_ok s = false -> rejected rp (PShred r slot_ok s sig_ok) = true.
+Proof.
+  intros rp r slot_ok s sig_ok Ht. unfold rejected. cbn [resp_req].
+  destruct (has_req rp r); cbn [negb orb]; [|reflexivity].
+  destruct r as [b|b sl|b sl ix]; try reflexivity. rewrite Ht. cbn [negb].
+  rewrite orb_true_r. reflexivity.
+Qed.
+Theorem tag_flipped_response_is_ignored : forall ct slot expected rp r slot_ok s sig_ok,
+  rp_panicked rp = false -> shred_tag_ok s = false ->
+  handle_response true ct slot expected rp (PShred r slot_ok s sig_ok) = (rp, []).
+Proof.
+  intros ct slot expected rp r slot_ok s sig_ok Hp Ht.
+  apply rejected_response_is_harmless; [exact Hp | apply tag_flipped_response_is_rejected; exact Ht].
 Qed.
 
 (* a NACK re-sends the request and leaves the set of outstanding requests unchanged *)
@@ -143,6 +163,7 @@ Proof.
       * subst rs. apply existsb_map_rshred in H. destruct H as [j Hj]. inversion Hj; subst. rewrite root_lookup_insert_same. discriminate.
     + destruct r as [| |b sl ix]; try exact Hign.
       destruct (negb (slot_ok && (b_slice s =? sl) && (b_index s =? ix))); [exact Hign|].
+      destruct (negb (shred_tag_ok s)); [exact Hign|].
       destruct (true && negb (Bool.eqb (b_last s) (is_last_slice rp b sl))); [exact Hign|].
       destruct (root_lookup (b, sl) (rp_roots rp)) as [root|] eqn:Hr.
       2:{ exfalso. apply (Inv b sl ix Hh). exact Hr. }
@@ -176,6 +197,7 @@ Proof.
   - destruct r; cbn in H; try congruence. destruct ok; cbn in H; congruence.
   - destruct r as [| |b sl ix]; try (cbn in H; congruence).
     destruct (negb (slot_ok && (b_slice s =? sl) && (b_index s =? ix))); [cbn in H; congruence|].
+    destruct (negb (shred_tag_ok s)); [cbn in H; congruence|].
     destruct (true && negb (Bool.eqb (b_last s) (is_last_slice rp b sl))); [cbn in H; congruence|].
     destruct (root_lookup (b, sl) (rp_roots rp)) as [root|] eqn:Hr.
     2:{ exfalso. apply (Inv b sl ix Hh). exact Hr. }
@@ -270,8 +292,12 @@ Theorem repair_step_store_ok : forall chk ct slot expected sd key s sd' ret evs,
   store_ok expected sd -> bs_step chk ct slot sd (BRepair key (expected key) s) = (sd', ret, evs) ->
   store_ok expected sd' /\ (forall h p, ret = BROk (Some (h, p)) -> h = expected key).
 Proof.
-  intros chk ct slot expected sd key s sd' ret evs Inv H. unfold bs_step in H.
-  destruct (sd_panicked sd); [inversion H; subst; split; [exact Inv|discriminate]|].
+  intros chk ct slot expected sd key s sd' ret evs Inv H.
+  (* a shred refused by the tag guard changes nothing *)
+  destruct (bs_step_cases chk ct slot sd (BRepair key (expected key) s)) as [E|[_ [_ E]]]; rewrite E in H; clear E;
+    [|inversion H; subst; split; [exact Inv|discriminate]].
+  unfold bs_step_gen in H.
+  destruct (sd_panicked sd); [inversion H; subst; split; [exact Inv|discriminate]|]. cbn [andb] in H.
   destruct (bd_add_shred chk ct slot (aget bd_empty key (sd_repaired sd)) s) as [d r] eqn:Ha.
   pose proof (add_shred_completed_spec _ _ _ _ _ _ _ Ha) as Hc.
   assert (Hold : forall h p, bd_completed (aget bd_empty key (sd_repaired sd)) = Some (h, p) -> h = expected key).
@@ -327,6 +353,7 @@ Proof.
     + destruct r; try (apply Hign). destruct ok; [apply Hsend, Inv|apply Hign].
     + destruct r as [| |b sl ix]; try (apply Hign).
       destruct (negb (slot_ok && (b_slice s =? sl) && (b_index s =? ix))); [apply Hign|].
+      destruct (negb (shred_tag_ok s)); [apply Hign|].
       destruct (true && negb (Bool.eqb (b_last s) (is_last_slice rp b sl))); [apply Hign|].
       destruct (root_lookup (b, sl) (rp_roots rp)) as [root|]; [|cbn; split; [exact Inv|intros ? ? ? []]].
       destruct (negb (b_root s =? root)); [apply Hign|]. destruct (negb sig_ok); [apply Hign|].
